@@ -14,6 +14,8 @@ struct Case {
     int extra_nodes = 0;   // unused nodes appended to the input
     double lambda = 1;     // uniform scaling for the cube/square law
     int ellipsoid = 0;
+    unsigned rough = 0;    // != 0: after the clauses on the fresh cell, real edge collapses / splits leave unused node and face slots and the
+                           // geometry functions are judged again on that cell
     std::string shape;
     void write(vf::Writer& w) const {
         mg::write_mesh(w, base);
@@ -23,6 +25,7 @@ struct Case {
         w.vu(perm1);
         w.vu(perm2);
         w.i(flips1), w.i(flips2), w.i(extra_nodes), w.d(lambda), w.i(ellipsoid);
+        w.u(rough);
         w.nl();
     }
     static Case read(vf::Reader& r) {
@@ -33,6 +36,7 @@ struct Case {
         c.perm1 = r.vu();
         c.perm2 = r.vu();
         c.flips1 = (int)r.i(), c.flips2 = (int)r.i(), c.extra_nodes = (int)r.i(), c.lambda = r.d(), c.ellipsoid = (int)r.i();
+        if (r.more()) c.rough = (unsigned)r.u();
         return c;
     }
 };
@@ -66,6 +70,7 @@ static rc::Gen<Case> genCase() {
         c.flips2 = *irange(0, 1);
         c.extra_nodes = *rc::gen::element(0, 0, 1, 3);
         c.lambda = *rc::gen::element(2.0, 0.5, 3.0, 1e-3, 10.0, 0.37);
+        if (*irange(0, 2) == 0) c.rough = (unsigned)*irange(1, 1 << 20);
         return c;
     });
 }
@@ -80,7 +85,8 @@ struct Geo {
 };
 
 // builds a cell from the mesh, checks the absolute clauses against the independent geometry; fills g
-static std::string absolute_clauses(const TriMesh& in, int extra_nodes, Geo& g, ct::CellScope& scope, const char* tag, bool& flipped_input) {
+static std::string absolute_clauses(const TriMesh& in, int extra_nodes, Geo& g, ct::CellScope& scope, const char* tag, bool& flipped_input, unsigned rough = 0,
+                                    vf::Ctx* ctx = nullptr) {
     TriMesh m = in;
     // independent facts about the input: which triangles are wound inward (star-shaped about the placed centre
     // is not needed: the exact signed volume of the correctly wound mesh decides)
@@ -149,6 +155,41 @@ static std::string absolute_clauses(const TriMesh& in, int extra_nodes, Geo& g, 
         return os.str();
     }
     g.axis = ct::to_v3(C.get_cell_longest_axis());
+    if (rough && ct::leave_free_slots(c, 3 + (int)(rough % 7), rough) > 0) {
+        // the same geometry functions on a cell with unused node / face slots (caches refreshed the way the force computation does)
+        C.update_all_face_normals_and_areas();
+        cell_tester::area(C) = C.compute_area();
+        TriMesh lv = ct::snapshot(C);
+        const ld V2 = fabsl(vg::signed_volume(lv)), A2 = vg::area(lv);
+        std::string tg2 = std::string(tag) + ", after collapses / splits left unused slots";
+        if (fabsl(C.compute_volume() - V2) > 2 * tolV) {
+            os << tg2 << ": compute_volume() = " << C.compute_volume() << " but the enclosed volume is " << (double)V2;
+            return os.str();
+        }
+        if (fabsl(C.compute_area() - A2) > 2 * tolA + 1e-300) {
+            os << tg2 << ": compute_area() = " << C.compute_area() << " but the sum of triangle areas is " << (double)A2;
+            return os.str();
+        }
+        V3 cen2 = ct::to_v3(C.compute_centroid()), cref2 = vg::area_centroid(lv);
+        if ((cen2 - cref2).norm() > 2 * tolC) {
+            os << tg2 << ": centroid (" << (double)cen2.x << "," << (double)cen2.y << "," << (double)cen2.z << ") but the area-weighted mean of triangle centroids is ("
+               << (double)cref2.x << "," << (double)cref2.y << "," << (double)cref2.z << ")";
+            return os.str();
+        }
+        std::array<double, 6> b2 = {1e300, 1e300, 1e300, -1e300, -1e300, -1e300};
+        for (size_t t = 0; t < lv.tri.size(); t++)
+            for (int q = 0; q < 3; q++) {
+                const double x = lv.xyz[3 * lv.tri[t] + q];
+                b2[q] = std::min(b2[q], x), b2[3 + q] = std::max(b2[3 + q], x);
+            }
+        auto got = C.get_aabb();
+        if (got != b2) {
+            os << tg2 << ": bounding box [" << got[0] << "," << got[1] << "," << got[2] << " .. " << got[3] << "," << got[4] << "," << got[5] << "] is not the tight box of the live nodes ["
+               << b2[0] << "," << b2[1] << "," << b2[2] << " .. " << b2[3] << "," << b2[4] << "," << b2[5] << "]";
+            return os.str();
+        }
+        if (ctx) ctx->count("geometry_on_cell_with_unused_slots");
+    }
     return "";
 }
 
@@ -158,7 +199,7 @@ static std::string run(const Case& k, vf::Ctx& ctx) {
     TriMesh m1 = mg::permute(mg::place(k.base, k.pl), k.perm1, k.flips1 != 0);
     Geo g1, g2, g3;
     bool fl1 = false, fl2 = false, fl3 = false;
-    std::string msg = absolute_clauses(m1, k.extra_nodes, g1, scope, "frame 1", fl1);
+    std::string msg = absolute_clauses(m1, k.extra_nodes, g1, scope, "frame 1", fl1, k.rough, &ctx);
     if (!msg.empty()) return msg;
     // second frame: extra rigid motion, other numbering, other winding mix
     TriMesh placed = mg::place(k.base, k.pl);
